@@ -3310,6 +3310,30 @@ def _unpack_sequence_value(
             return [*head, SequenceValue(list, remaining_members), *reversed(tail)]
 
 
+def stable_iteration_order(container: Iterable[T]) -> Iterable[T]:
+    """Return the members of a set in an order that does not depend on hashing.
+
+    The iteration order of a set varies with the hash seed and with memory layout,
+    which would make inferred unions (and error messages) differ between runs.
+    Other containers are returned unchanged.
+
+    """
+    if not isinstance(container, (set, frozenset)):
+        return container
+
+    def sort_key(member: object) -> tuple[str, object, str]:
+        # Group by type; numbers and strings are totally ordered within their type,
+        # anything else is ordered by its repr().
+        if isinstance(member, (int, float, str, bytes)):
+            return (type(member).__name__, member, "")
+        return (type(member).__name__, 0, repr(member))
+
+    try:
+        return sorted(container, key=sort_key)
+    except Exception:
+        return list(container)
+
+
 def replace_known_sequence_value(value: Value) -> Value:
     """Simplify a Value in a way that is easier to handle for most typechecking use cases.
 
@@ -3328,7 +3352,8 @@ def replace_known_sequence_value(value: Value) -> Value:
     if isinstance(value, KnownValue):
         if isinstance(value.val, (list, tuple, set)):
             return SequenceValue(
-                type(value.val), [(False, KnownValue(elt)) for elt in value.val]
+                type(value.val),
+                [(False, KnownValue(elt)) for elt in stable_iteration_order(value.val)],
             )
         elif isinstance(value.val, dict):
             return DictIncompleteValue(
